@@ -163,6 +163,22 @@ func (builders ProofBuilderList) BuildDistributedProofList(
 		return nil, errors.New("Not enough ProofP's given")
 	}
 
+	// What the keyshare server sent is not trusted: it must be complete, and in the current protocol version (no P)
+	// the server answers for the challenge it computed itself from the hash inputs - that has to be our challenge.
+	// (MergeProofP used to overwrite the challenge object shared by all proofs with the server's value: every later
+	// proof was then computed with a challenge larger than its randomizers and revealed its secrets.)
+	for _, proofP := range proofPs {
+		if proofP == nil {
+			continue
+		}
+		if proofP.SResponse == nil || (proofP.P == nil && proofP.C == nil) {
+			return nil, errors.New("incomplete ProofP")
+		}
+		if proofP.P == nil && proofP.C.Cmp(challenge) != 0 {
+			return nil, errors.New("keyshare server used a different challenge")
+		}
+	}
+
 	proofs := make([]Proof, len(builders))
 	// Now create proofs using this challenge
 	for i, v := range builders {
